@@ -182,6 +182,10 @@ impl Generator {
             // memo operations - GET requires existing memo entry
             Get | BinGet | LongBinGet => !self.state.memo.is_empty(),
 
+            // BINPUT has a one-byte index: once 256 entries exist it cannot name a
+            // fresh slot any more (it would re-define an existing key)
+            BinPut if self.state.memo.len() >= 256 => false,
+
             // PUT operations - need something to memoize (and not MARK)
             Put | BinPut | LongBinPut | Memoize => {
                 self.state.stack.len() >= 1
